@@ -6,6 +6,7 @@ from collections.abc import (
     Coroutine,
     Iterable,
 )
+from contextlib import aclosing
 from contextvars import Context, copy_context
 from logging import Logger
 from types import TracebackType
@@ -307,8 +308,10 @@ class ctx:
 
         async def generator() -> AsyncGenerator[Result, None]:
             async with streaming_context:
-                async for result in source(*args, **kwargs):
-                    yield result
+                # closing the stream has to close the source as well, within the same context
+                async with aclosing(source(*args, **kwargs)) as results:
+                    async for result in results:
+                        yield result
 
         # finally return it as an iterator
         return context_snapshot.run(generator)
